@@ -20,6 +20,47 @@ CB = "concordium_base"
 T = CB + "::transactions::"
 
 
+def lookups_and_verdicts(ck, f):
+    """In verify_data_signature and its closures: every key lookup that fails rejects, every signature
+    verification that fails rejects.  Iterator forms (`all`, `map_or(false, ..)`, `is_some_and`) are accepted idioms."""
+    c = crate("rs", CB)
+    bodies = [f] + [Fn(b) for p in c.paths() if p.startswith(f.path + "::{closure") for b in c.get_all(p)]
+    n_lookup = n_verify = 0
+    for g in bodies:
+        for pat, what in ((r"HasAccountAccessStructure::credential_keys$", "credential_keys"), (r"CredentialPublicKeys::get$", "cred_keys.get")):
+            for n, (bi, t) in enumerate(g.calls(pat)):
+                n_lookup += 1
+                r = rules.enforcement(g, bi)
+                ok = rules.enforced_ok(r)
+                how = r["status"] + ": " + r["detail"]
+                if not ok:
+                    # Option combinators: the default for None must be `false`
+                    dest = t["dest"][0]
+                    fw = g.forward({dest})
+                    for (mb, mt) in g.calls(r"Option::<T>::(map_or|is_some_and|map_or_else)$"):
+                        pl = op_place(mt["args"][0])
+                        if pl is not None and pl[0] in fw:
+                            if mt["f"]["name"] == "is_some_and":
+                                ok, how = True, "is_some_and: an unknown key yields false"
+                            elif mt["f"]["name"] == "map_or":
+                                k = op_const(mt["args"][1])
+                                dflt = const_int(k) if k else None
+                                ok = dflt == 0
+                                how = "map_or(%s, ..): an unknown key yields %s" % ("false" if dflt == 0 else "TRUE", "rejection" if dflt == 0 else "ACCEPTANCE")
+                            r2 = rules.enforcement(g, mb, extra_fail=("bool", 0))
+                            ok = ok and rules.enforced_ok(r2)
+                ck.ob("ENF", g.path, "%s#%d" % (what, n), ok, how, g.loc(bi))
+        for n, (bi, t) in enumerate(g.calls(r"VerifyKey::verify$")):
+            n_verify += 1
+            r = rules.enforcement(g, bi)
+            ck.ob("ENF", g.path, "pk.verify#%d" % n, rules.enforced_ok(r), r["status"] + ": " + r["detail"], g.loc(bi))
+        for n, (bi, t) in enumerate(g.calls(r"iter::Iterator::(all|any)$")):
+            r = rules.enforcement(g, bi, extra_fail=("bool", 0 if t["f"]["name"] == "all" else 1))
+            ck.ob("ENF", g.path, "iterator-%s#%d" % (t["f"]["name"], n), rules.enforced_ok(r), r["status"] + ": " + r["detail"], g.loc(bi))
+    ck.floor("ENF", "key lookups in verify_data_signature", n_lookup, 2)
+    ck.floor("ENF", "signature verifications in verify_data_signature", n_verify, 1)
+
+
 def run(ck):
     ck.explanation = ("Decides structural necessary conditions of the threshold policy: every comparison and "
                       "lookup in the signature verifiers is branched on with the rejecting polarity, the only "
@@ -36,13 +77,11 @@ def run(ck):
                       [("call", r"BTreeMap::<K, V, A>::len$"), ("arg", 3)], "Gt", "account-threshold>signatures.len")
         cmp_rejecting(ck, f, [("field", "threshold")],
                       [("call", r"BTreeMap::<K, V, A>::len$")], "Gt", "credential-threshold>cred_sigs.len")
-        enf_calls(ck, f, r"HasAccountAccessStructure::credential_keys$", "credential_keys")
-        enf_calls(ck, f, r"CredentialPublicKeys::get$", "cred_keys.get")
-        enf_calls(ck, f, r"VerifyKey::verify$", "pk.verify")
+        lookups_and_verdicts(ck, f)
         # exactly one accepting assignment, and it is `true` reached only after the outer loop ended
         acc, rej = f.accept_points()
         ck.ob("RET", f.path, "single-accept", len(acc) == 1, "%d accepting assignments, %d rejecting" % (len(acc), len(rej)), f.loc())
-        ck.ob("RET", f.path, "reject-count", len(rej) >= 5, "%d rejecting assignments (floor 5)" % len(rej), f.loc(), nontrivial=False)
+        ck.ob("RET", f.path, "reject-count", len(rej) >= 3, "%d rejecting assignments (floor 3)" % len(rej), f.loc(), nontrivial=False)
         # the data verified is the function's data argument and the signature comes from the map
         for n, (bi, t) in enumerate(f.calls(r"VerifyKey::verify$")):
             o1 = f.origins(t["args"][1], deep=True)
